@@ -222,7 +222,8 @@ def tree_canon(e):
             tuple(tree_canon(c) for c in e))
 
 
-MULTIBYTE = ('shift_jis', 'euc-jp', 'big5', 'gb2312')     # the scanner (expat) cannot read them at all
+MULTIBYTE = ('shift_jis', 'euc-jp', 'big5', 'gb2312',      # the scanner (expat) cannot read them at all
+             'utf-32-le', 'utf-32', 'utf-16-le')            # nor these without / with a BOM, which lxml autodetects
 
 
 def run_instance(env, mode, kind, prolog, body_ref, has_decl, encoding='utf-8', bom=False, pad='', st=None,
@@ -419,7 +420,7 @@ def run_shard(desc):
                             core.report(st, PROPERTY, r)
                     if kind in ('bytes', 'BytesIO', 'binary_file', 'path'):
                         # byte sources through lxml's iterparse, which can read encodings the scanner cannot
-                        for enc in ('utf-8', 'iso-8859-1') + MULTIBYTE[:2]:
+                        for enc in ('utf-8', 'iso-8859-1') + MULTIBYTE[:2] + MULTIBYTE[4:]:
                             for r in run_instance(env, mode, kind, prolog, ref, has_decl, enc, False, '', st, pname, True):
                                 core.report(st, PROPERTY, r)
                     for enc, bom in (('utf-8', False), ('utf-8', True), ('utf-16', True), ('iso-8859-1', False)):
